@@ -32,7 +32,9 @@ func VerifC20Option(idx, n int) {
 	verifReach("end")
 }
 
-// VerifC20Message: a message (relay != 0: a relay-forward wrapping it) holding one option of known
+// VerifC20Message: a message (relay = 1: a relay-forward wrapping it; 2, 3: a relay-forward holding
+// the relayed message, an interface-id and the option in two different orders; 4: a message with two
+// more options around it) holding one option of known
 // code #idx with an n-byte symbolic payload, decoded from the wire; every read-only method of the
 // message and of its option accessors; ToBytes must stay the same.
 func VerifC20Message(idx, n, relay int) {
@@ -45,10 +47,33 @@ func VerifC20Message(idx, n, relay int) {
 	wire = append(wire, payload...)
 	verifAssume(wire[0] != 12)
 	verifAssume(wire[0] != 13)
-	if relay != 0 {
+	opt := append([]byte(nil), wire[4:]...) // the option's TLV
+	iid := append([]byte{0, 18, 0, 2}, verifBytes("iid", 2)...)
+	switch relay {
+	case 1: // relay-forward holding only the relayed message
 		hdr := append([]byte{12, verifU8("hops")}, verifBytes("addrs", 32)...)
 		hdr = append(hdr, 0, 9, byte(len(wire)>>8), byte(len(wire)))
 		wire = append(hdr, wire...)
+	case 2: // relay-forward: relayed message FIRST, then interface-id and the option itself
+		hdr := append([]byte{12, verifU8("hops")}, verifBytes("addrs", 32)...)
+		hdr = append(hdr, 0, 9, byte(len(wire)>>8), byte(len(wire)))
+		wire = append(hdr, wire...)
+		wire = append(wire, iid...)
+		wire = append(wire, opt...)
+	case 3: // relay-forward: the option, interface-id, then the relayed message LAST
+		hdr := append([]byte{12, verifU8("hops")}, verifBytes("addrs", 32)...)
+		hdr = append(hdr, opt...)
+		hdr = append(hdr, iid...)
+		hdr = append(hdr, 0, 9, byte(len(wire)>>8), byte(len(wire)))
+		wire = append(hdr, wire...)
+	case 4: // message with three options: an unknown one, the option, another unknown one
+		w := append([]byte(nil), wire[:4]...)
+		w = append(w, 0, 250, 0, 2)
+		w = append(w, verifBytes("before", 2)...)
+		w = append(w, opt...)
+		w = append(w, 0, 251, 0, 1)
+		w = append(w, verifBytes("after", 1)...)
+		wire = w
 	}
 	d, err := FromBytes(wire)
 	if err != nil {
